@@ -23,6 +23,9 @@ extern "C" {
 }
 
 // ---------------------------------------------------------------- utilities
+// every library object starts out as garbage (0xA5): an init function that forgets a field shows
+#define SBH_DIRTY(obj) memset(&(obj), 0xA5, sizeof(obj))
+
 static sigjmp_buf g_jmp;
 static volatile sig_atomic_t g_in_case = 0;
 
@@ -221,6 +224,7 @@ static std::string op_file(const std::vector<std::string>& w)
     Guarded g(b);
     int fd = -1;
     sb_binary_file_parser_t parser;
+    SBH_DIRTY(parser);
     sb_error_t e;
     std::string out;
     if (mem) {
@@ -318,6 +322,7 @@ static std::string op_load(const std::vector<std::string>& w)
     sb_error_t e;
     if (kind == "traj") {
         sb_trajectory_t t;
+        SBH_DIRTY(t);
         e = mem ? sb_trajectory_init_from_binary_file_in_memory(&t, g.ptr, g.n) : sb_trajectory_init_from_binary_file(&t, fd);
         if (e == SB_SUCCESS) {
             out = "ok " + S(sb_buffer_is_view(&t.buffer) ? 0 : 1) + " " + hex(SB_BUFFER(t.buffer), sb_buffer_size(&t.buffer));
@@ -325,6 +330,7 @@ static std::string op_load(const std::vector<std::string>& w)
         }
     } else if (kind == "light") {
         sb_light_program_t t;
+        SBH_DIRTY(t);
         e = mem ? sb_light_program_init_from_binary_file_in_memory(&t, g.ptr, g.n) : sb_light_program_init_from_binary_file(&t, fd);
         if (e == SB_SUCCESS) {
             out = "ok " + S(sb_buffer_is_view(&t.buffer) ? 0 : 1) + " " + hex(SB_BUFFER(t.buffer), sb_buffer_size(&t.buffer));
@@ -332,6 +338,7 @@ static std::string op_load(const std::vector<std::string>& w)
         }
     } else if (kind == "yaw") {
         sb_yaw_control_t t;
+        SBH_DIRTY(t);
         e = mem ? sb_yaw_control_init_from_binary_file_in_memory(&t, g.ptr, g.n) : sb_yaw_control_init_from_binary_file(&t, fd);
         if (e == SB_SUCCESS) {
             out = "ok " + S(sb_buffer_is_view(&t.buffer) ? 0 : 1) + " " + hex(SB_BUFFER(t.buffer), sb_buffer_size(&t.buffer));
@@ -339,6 +346,7 @@ static std::string op_load(const std::vector<std::string>& w)
         }
     } else {
         sb_rth_plan_t t;
+        SBH_DIRTY(t);
         e = mem ? sb_rth_plan_init_from_binary_file_in_memory(&t, g.ptr, g.n) : sb_rth_plan_init_from_binary_file(&t, fd);
         if (e == SB_SUCCESS) {
             out = "ok " + S(t.owner ? 1 : 0) + " " + hex(t.buffer, t.buffer_length);
@@ -365,13 +373,22 @@ static std::vector<std::string> csv(const std::string& s)
     return out;
 }
 
+// the byte string "empty" selects the *_init_empty constructor of the object
+static std::vector<uint8_t> unhex_or_empty(const std::string& h, bool* empty)
+{
+    *empty = (h == "empty");
+    return *empty ? std::vector<uint8_t>() : unhex(h);
+}
+
 // rth <hex> <point indices csv> <times csv (binary32 hex)>
 static std::string op_rth(const std::vector<std::string>& w)
 {
-    std::vector<uint8_t> b = unhex(w[1]);
+    bool empty = false;
+    std::vector<uint8_t> b = unhex_or_empty(w[1], &empty);
     Guarded g(b);
     sb_rth_plan_t plan;
-    sb_error_t e = sb_rth_plan_init_from_buffer(&plan, g.ptr, g.n);
+    SBH_DIRTY(plan);
+    sb_error_t e = empty ? sb_rth_plan_init_empty(&plan) : sb_rth_plan_init_from_buffer(&plan, g.ptr, g.n);
     if (e != SB_SUCCESS) {
         return "init:" + code(e);
     }
@@ -386,6 +403,7 @@ static std::string op_rth(const std::vector<std::string>& w)
     }
     for (const std::string& t : csv(w[3])) {
         sb_rth_plan_entry_t r;
+        SBH_DIRTY(r);
         memset(&r, 0x5A, sizeof r);
         e = sb_rth_plan_evaluate_at(&plan, f_of_hex(t), &r);
         out += " q:" + code(e);
@@ -408,10 +426,12 @@ static std::string vec4hex(const sb_vector3_with_yaw_t& v)
 static std::string op_traj(const std::vector<std::string>& w)
 {
     bool hist = w[1] == "h";
-    std::vector<uint8_t> b = unhex(w[2]);
+    bool empty = false;
+    std::vector<uint8_t> b = unhex_or_empty(w[2], &empty);
     Guarded g(b);
     sb_trajectory_t tr;
-    sb_error_t e = sb_trajectory_init_from_buffer(&tr, g.ptr, g.n);
+    SBH_DIRTY(tr);
+    sb_error_t e = empty ? sb_trajectory_init_empty(&tr) : sb_trajectory_init_from_buffer(&tr, g.ptr, g.n);
     if (e != SB_SUCCESS) {
         return "init:" + code(e);
     }
@@ -421,6 +441,7 @@ static std::string op_traj(const std::vector<std::string>& w)
         uint32_t d1 = sb_trajectory_get_total_duration_msec(&tr);
         float d1s = sb_trajectory_get_total_duration_sec(&tr);
         sb_trajectory_player_t pl;
+        SBH_DIRTY(pl);
         uint32_t d2 = 0;
         sb_error_t e2 = sb_trajectory_player_init(&pl, &tr);
         if (e2 == SB_SUCCESS) {
@@ -428,7 +449,9 @@ static std::string op_traj(const std::vector<std::string>& w)
             sb_trajectory_player_destroy(&pl);
         }
         sb_trajectory_stats_calculator_t calc;
+        SBH_DIRTY(calc);
         sb_trajectory_stats_t st;
+        SBH_DIRTY(st);
         memset(&st, 0, sizeof st);
         sb_trajectory_stats_calculator_init(&calc, 1.0f);
         sb_trajectory_stats_calculator_set_components(&calc, SB_TRAJECTORY_STATS_DURATION);
@@ -447,11 +470,13 @@ static std::string op_traj(const std::vector<std::string>& w)
         out += " dur=" + U(d1) + "," + fhex(d1s) + "," + code(e2) + "," + U(d2) + "," + code(e3) + "," + U(st.duration_msec) + "," + U(st.duration_sec) + " nseg=" + (e4 == SB_SUCCESS ? S(nseg) : code(e4));
     }
     sb_trajectory_player_t hp;
+    SBH_DIRTY(hp);
     sb_error_t ehp = sb_trajectory_player_init(&hp, &tr);
     for (const std::string& q : csv(w[3])) {
         char kind = q[0];
         float t = f_of_hex(q.substr(1));
         sb_trajectory_player_t fp;
+        SBH_DIRTY(fp);
         sb_error_t efp = sb_trajectory_player_init(&fp, &tr);
         if (efp != SB_SUCCESS || ehp != SB_SUCCESS) {
             // a player that could not be initialised is not queried
@@ -529,18 +554,22 @@ static std::string op_traj(const std::vector<std::string>& w)
 static std::string op_yaw(const std::vector<std::string>& w)
 {
     bool hist = w[1] == "h";
-    std::vector<uint8_t> b = unhex(w[2]);
+    bool empty = false;
+    std::vector<uint8_t> b = unhex_or_empty(w[2], &empty);
     Guarded g(b);
     sb_yaw_control_t yc;
-    sb_error_t e = sb_yaw_control_init_from_buffer(&yc, g.ptr, g.n);
+    SBH_DIRTY(yc);
+    sb_error_t e = empty ? sb_yaw_control_init_empty(&yc) : sb_yaw_control_init_from_buffer(&yc, g.ptr, g.n);
     if (e != SB_SUCCESS) {
         return "init:" + code(e);
     }
     sb_yaw_player_t hp;
+    SBH_DIRTY(hp);
     sb_yaw_player_init(&hp, &yc);
     uint32_t dur = 0;
     {
         sb_yaw_player_t tp;
+        SBH_DIRTY(tp);
         sb_yaw_player_init(&tp, &yc);
         sb_yaw_player_get_total_duration_msec(&tp, &dur);
         sb_yaw_player_destroy(&tp);
@@ -551,6 +580,7 @@ static std::string op_yaw(const std::vector<std::string>& w)
         char kind = q[0];
         float t = f_of_hex(q.substr(1));
         sb_yaw_player_t fp;
+        SBH_DIRTY(fp);
         sb_yaw_player_init(&fp, &yc);
         float vf = -12345.0f, vh = -12345.0f;
         sb_error_t ef = SB_SUCCESS, eh = SB_SUCCESS;
@@ -600,20 +630,24 @@ static std::string op_yaw(const std::vector<std::string>& w)
 // light <mode f|h> <hex> <queries>: c<t> colour, p<t> pyro mask, s<t> seek; t in decimal ms
 static std::string op_light(bool hist, const std::string& hexprog, const std::string& queries)
 {
-    std::vector<uint8_t> b = unhex(hexprog);
+    bool empty = false;
+    std::vector<uint8_t> b = unhex_or_empty(hexprog, &empty);
     Guarded g(b);
     sb_light_program_t prog;
-    sb_error_t e = sb_light_program_init_from_buffer(&prog, g.ptr, g.n);
+    SBH_DIRTY(prog);
+    sb_error_t e = empty ? sb_light_program_init_empty(&prog) : sb_light_program_init_from_buffer(&prog, g.ptr, g.n);
     if (e != SB_SUCCESS) {
         return "init:" + code(e);
     }
     sb_light_player_t hp;
+    SBH_DIRTY(hp);
     sb_light_player_init(&hp, &prog);
     std::string out;
     for (const std::string& q : csv(queries)) {
         char kind = q[0];
         unsigned long t = strtoul(q.c_str() + 1, 0, 10);
         sb_light_player_t fp;
+        SBH_DIRTY(fp);
         sb_light_player_t* pl = &hp;
         if (!hist) {
             sb_light_player_init(&fp, &prog);
@@ -668,6 +702,7 @@ static std::string probe_positions(sb_trajectory_t* tr, const std::vector<unsign
     std::string out;
     for (unsigned long ms : marks) {
         sb_trajectory_player_t pl;
+        SBH_DIRTY(pl);
         sb_vector3_with_yaw_t v;
         sb_error_t e = sb_trajectory_player_init(&pl, tr);
         if (e == SB_SUCCESS) {
@@ -686,6 +721,7 @@ static std::string probe_positions(sb_trajectory_t* tr, const std::vector<unsign
 static std::string op_build(const std::vector<std::string>& w)
 {
     sb_trajectory_builder_t b;
+    SBH_DIRTY(b);
     sb_error_t e = sb_trajectory_builder_init(&b, (uint8_t)atoi(w[1].c_str()), (uint8_t)atoi(w[2].c_str()));
     if (e != SB_SUCCESS) {
         return "init:" + code(e);
@@ -716,6 +752,7 @@ static std::string op_build(const std::vector<std::string>& w)
             }
         } else if (f[0] == "F") {
             sb_trajectory_t tr;
+            SBH_DIRTY(tr);
             e = sb_trajectory_init_from_builder(&tr, &b);
             out += " F:" + code(e);
             if (e == SB_SUCCESS) {
@@ -738,6 +775,7 @@ static std::string op_build(const std::vector<std::string>& w)
 static std::string op_rth2traj(const std::vector<std::string>& w)
 {
     sb_rth_plan_entry_t en;
+    SBH_DIRTY(en);
     memset(&en, 0, sizeof en);
     en.time_sec = f_of_hex(w[1]);
     en.action = (sb_rth_action_t)atoi(w[2].c_str());
@@ -751,6 +789,7 @@ static std::string op_rth2traj(const std::vector<std::string>& w)
     en.pre_neck_duration_sec = f_of_hex(w[10]);
     sb_vector3_with_yaw_t start = vec_of(w[11], w[12], w[13], w[14]);
     sb_trajectory_t tr;
+    SBH_DIRTY(tr);
     sb_error_t e = sb_trajectory_init_from_rth_plan_entry(&tr, &en, start);
     if (e != SB_SUCCESS) {
         return code(e);
@@ -854,6 +893,7 @@ static std::string op_util(const std::vector<std::string>& w)
     }
     if (k == "buf") {
         sb_buffer_t b;
+        SBH_DIRTY(b);
         sb_error_t e = SB_SUCCESS;
         std::vector<uint8_t> init;
         uint8_t* owned_copy = 0;
@@ -897,6 +937,7 @@ static std::string op_util(const std::vector<std::string>& w)
                 std::vector<uint8_t> d = unhex(arg);
                 Guarded og(d);
                 sb_buffer_t other;
+                SBH_DIRTY(other);
                 sb_buffer_init_view(&other, og.ptr, og.n);
                 r = sb_buffer_concat(&b, &other);
                 sb_buffer_destroy(&other);
@@ -944,6 +985,7 @@ static std::string op_stats(const std::vector<std::string>& w)
     std::vector<uint8_t> b = unhex(w[2]);
     Guarded g(b);
     sb_trajectory_t tr;
+    SBH_DIRTY(tr);
     sb_error_t e = sb_trajectory_init_from_buffer(&tr, g.ptr, g.n);
     if (e != SB_SUCCESS) {
         return "init:" + code(e);
@@ -954,7 +996,9 @@ static std::string op_stats(const std::vector<std::string>& w)
         float t = sb_trajectory_propose_takeoff_time_sec(&tr, ascent, speed, acc);
         // the one-pass statistics interface with the same parameters
         sb_trajectory_stats_calculator_t calc;
+        SBH_DIRTY(calc);
         sb_trajectory_stats_t st;
+        SBH_DIRTY(st);
         memset(&st, 0x5A, sizeof st);
         sb_trajectory_stats_calculator_init(&calc, 1.0f);
         calc.acceleration = acc;
@@ -970,7 +1014,9 @@ static std::string op_stats(const std::vector<std::string>& w)
         float descent = f_of_hex(w[3]), thr = f_of_hex(w[4]);
         float t = sb_trajectory_propose_landing_time_sec(&tr, descent, thr);
         sb_trajectory_stats_calculator_t calc;
+        SBH_DIRTY(calc);
         sb_trajectory_stats_t st;
+        SBH_DIRTY(st);
         memset(&st, 0x5A, sizeof st);
         sb_trajectory_stats_calculator_init(&calc, 1.0f);
         calc.preferred_descent = descent;
@@ -1190,6 +1236,7 @@ static std::string obs_traj(sb_trajectory_t* t)
 {
     std::string o = "E" + S(sb_trajectory_is_empty(t) ? 1 : 0) + " D" + U(sb_trajectory_get_total_duration_msec(t)) + ":" + fhex(sb_trajectory_get_total_duration_sec(t));
     sb_trajectory_player_t pl;
+    SBH_DIRTY(pl);
     sb_error_t e = sb_trajectory_player_init(&pl, t);
     o += " I" + code(e);
     if (e == SB_SUCCESS) {
@@ -1226,6 +1273,7 @@ static std::string obs_light(sb_light_program_t* p)
 {
     std::string o;
     sb_light_player_t pl;
+    SBH_DIRTY(pl);
     sb_error_t e = sb_light_player_init(&pl, p);
     o += "I" + code(e);
     if (e == SB_SUCCESS) {
@@ -1246,6 +1294,7 @@ static std::string obs_yaw(sb_yaw_control_t* y)
 {
     std::string o = "E" + S(sb_yaw_control_is_empty(y) ? 1 : 0) + " n" + U(y->num_deltas) + " a" + S(y->auto_yaw ? 1 : 0) + " o" + S(y->yaw_offset_ddeg);
     sb_yaw_player_t pl;
+    SBH_DIRTY(pl);
     sb_error_t e = sb_yaw_player_init(&pl, y);
     o += " I" + code(e);
     if (e == SB_SUCCESS) {
@@ -1275,6 +1324,7 @@ static std::string obs_rth(sb_rth_plan_t* p)
     const float ts[] = { -1.0f, 0.0f, 5.0f, 100.0f, 1e9f, INFINITY };
     for (float tt : ts) {
         sb_rth_plan_entry_t en;
+        SBH_DIRTY(en);
         memset(&en, 0, sizeof en);
         sb_error_t e = sb_rth_plan_evaluate_at(p, tt, &en);
         o += " q" + code(e);
@@ -1283,6 +1333,7 @@ static std::string obs_rth(sb_rth_plan_t* p)
                 + fhex(en.pre_delay_sec) + "," + fhex(en.post_delay_sec) + "," + fhex(en.pre_neck_mm) + "," + fhex(en.pre_neck_duration_sec);
             // the entry converts to a trajectory
             sb_trajectory_t tr;
+            SBH_DIRTY(tr);
             sb_vector3_with_yaw_t st = { 100.0f, 200.0f, 1000.0f, 0.0f };
             sb_error_t e2 = sb_trajectory_init_from_rth_plan_entry(&tr, &en, st);
             o += "/" + code(e2);
@@ -1309,6 +1360,7 @@ static std::string op_routes(const std::vector<std::string>& w)
         std::string o;
         if (kind == "traj") {
             sb_trajectory_t t;
+            SBH_DIRTY(t);
             e = r == 0 ? sb_trajectory_init_from_binary_file(&t, fd) : sb_trajectory_init_from_binary_file_in_memory(&t, g.ptr, g.n);
             if (e == SB_SUCCESS) {
                 blk[r] = hex(SB_BUFFER(t.buffer), sb_buffer_size(&t.buffer));
@@ -1319,6 +1371,7 @@ static std::string op_routes(const std::vector<std::string>& w)
             }
         } else if (kind == "light") {
             sb_light_program_t t;
+            SBH_DIRTY(t);
             e = r == 0 ? sb_light_program_init_from_binary_file(&t, fd) : sb_light_program_init_from_binary_file_in_memory(&t, g.ptr, g.n);
             if (e == SB_SUCCESS) {
                 blk[r] = hex(SB_BUFFER(t.buffer), sb_buffer_size(&t.buffer));
@@ -1329,6 +1382,7 @@ static std::string op_routes(const std::vector<std::string>& w)
             }
         } else if (kind == "yaw") {
             sb_yaw_control_t t;
+            SBH_DIRTY(t);
             e = r == 0 ? sb_yaw_control_init_from_binary_file(&t, fd) : sb_yaw_control_init_from_binary_file_in_memory(&t, g.ptr, g.n);
             if (e == SB_SUCCESS) {
                 blk[r] = hex(SB_BUFFER(t.buffer), sb_buffer_size(&t.buffer));
@@ -1337,6 +1391,7 @@ static std::string op_routes(const std::vector<std::string>& w)
             }
         } else {
             sb_rth_plan_t t;
+            SBH_DIRTY(t);
             e = r == 0 ? sb_rth_plan_init_from_binary_file(&t, fd) : sb_rth_plan_init_from_binary_file_in_memory(&t, g.ptr, g.n);
             if (e == SB_SUCCESS) {
                 blk[r] = hex(t.buffer, t.buffer_length);
@@ -1441,7 +1496,10 @@ struct ASlot {
     sb_rth_plan_t rth;
     sb_trajectory_builder_t builder;
     sb_light_player_t player;
-    ASlot() : kind(0) {}
+    ASlot() : kind(0)
+    {
+        SBH_DIRTY(buf); SBH_DIRTY(traj); SBH_DIRTY(light); SBH_DIRTY(yaw); SBH_DIRTY(rth); SBH_DIRTY(builder); SBH_DIRTY(player);
+    }
 };
 
 // library calls are made with tracking on; everything the harness itself
@@ -1655,6 +1713,7 @@ static std::string op_alloc(const std::vector<std::string>& w)
             // rt:t:time:action:dur:tx:ty:alt:pre:post:neck:neckd:sx:sy:sz:sw
             if (!is_free(i)) { skipped(); continue; }
             sb_rth_plan_entry_t en;
+            SBH_DIRTY(en);
             memset(&en, 0, sizeof en);
             en.time_sec = f_of_hex(a[2]);
             en.action = (sb_rth_action_t)atoi(a[3].c_str());
